@@ -449,7 +449,10 @@ class C17Runner:
             rep.unproven({"correspondence": "Lean mkRange/setIdx and AddrRange disagree"}, {"property": pid, "examples": mism})
         return {"evaluations": stats["evaluated"], "distinct_nontrivial": stats["accepted"],
                 "rule": f"every subset of {{start,end,size,base,idx}} x grid {grid} (exhaustive: {nexh} constructions), each with a "
-                        "re-index k, + random specifications up to 64 bits; non-trivial = accepted by pydantic",
+                        "re-index k, + random specifications up to 64 bits; every accepted one also as the range of an EndpointDesc "
+                        "(single / array, alone / next to a touching second range); re-indexing through a compiled network (arrays "
+                        "of 1..5 elements, several based ranges of different sizes, written indices); literals of a rule read back "
+                        "at widths 16..64; non-trivial = accepted by pydantic",
                 "samples": samples, "exhaustive": True, "traces_validated_against_impl": stats["evaluated"],
                 "disagreements_checked": stats["model-mismatch"], "status_counts": dict(stats)}
 
@@ -673,7 +676,10 @@ class C18Runner:
             rep.unproven({"correspondence": "Lean selectors and floogen Graph selectors disagree"}, {"property": pid, "examples": mism})
         return {"evaluations": stats["evaluated"], "distinct_nontrivial": stats["returned"],
                 "rule": f"all 1-D and 2-D arrays up to {lim}x{lim} x all range pairs with bounds in [-1, dim] and all indices "
-                        "in [-1, dim]; all trees up to depth 3 / fan-out 3 x all levels; non-trivial = a selection that returns nodes",
+                        "in [-1, dim]; all trees up to depth 3 / fan-out 3 (built through RouterDesc, also in the scalar spelling) and "
+                        "fan-outs 11/12 x all levels incl. the one below the last, next to a tree <name>2, a unit <name>_cfg and a tree "
+                        "<name>_1; the level selector also through Network.create_connections (both ways round, hand-wired trees); "
+                        "non-trivial = a selection that returns nodes",
                 "samples": samples, "exhaustive": tier == "thorough", "traces_validated_against_impl": stats["evaluated"],
                 "disagreements_checked": stats["model-mismatch"], "status_counts": dict(stats)}
 
